@@ -592,6 +592,33 @@ func (fr *Frame) havocTarget(env *Env, e Expr, st *State) error {
 		fr.havocRange(st, v.Addr, v.T)
 		return nil
 	case ECall:
+		if x.Fun == "spare" && len(x.Args) == 1 {
+			// spare(s): the cells between len(s) and cap(s) of s's backing array (what an append in place writes);
+			// the elements of s itself are untouched
+			v, err := env.eval(x.Args[0])
+			if err != nil {
+				return err
+			}
+			sl, ok := v.T.Underlying().(*types.Slice)
+			if !ok || !fr.l().flatOK(sl.Elem()) {
+				return fmt.Errorf("assigns spare(x): x is not a slice of flat elements")
+			}
+			seen := map[Sort]bool{}
+			for _, s := range fr.l().layout(sl.Elem()) {
+				if seen[s] {
+					continue
+				}
+				seen[s] = true
+				row := vc.freshRaw("row_"+string(s), "(Array Int "+string(s)+")")
+				w := fr.l().sizeOf(sl.Elem())
+				lo := sAdd(v.C[1], sMulC(v.C[2], int64(w)))
+				hi := sAdd(v.C[1], sMulC(v.C[3], int64(w)))
+				old := vc.rowOf(st, s, v.C[0])
+				vc.assert(fmt.Sprintf("(forall ((q Int)) (! (=> (or (< q %s) (>= q %s)) (= (select %s q) (select %s q))) :pattern ((select %s q))))", lo, hi, row, old, row))
+				vc.setRow(st, s, v.C[0], row)
+			}
+			return nil
+		}
 		if x.Fun == "deep" {
 			// deep(x): objects reachable through the values x holds (e.g. the linear expressions boxed in a
 			// slice of Variables), not x's own cells: nothing to havoc in the typed memory, where such boxes
